@@ -604,37 +604,106 @@ package gocql
 //@   may_soft_panic
 //@   ensures !soft_panic() ==> typeis(result, *supportedFrame) && unbox(result, *supportedFrame) != nil
 
+// A type descriptor <option>: [short] id, then by id - 0x0000 custom: [string] class; 0x0020 list / 0x0022 set:
+// <option> element; 0x0021 map: <option> key, <option> value; 0x0030 UDT: [string] keyspace, [string] name,
+// [short] n, n x ([string] field name, <option>); 0x0031 tuple: [short] n, n x <option>; any other id is a
+// native type without further bytes. The kind of the descriptor returned follows the id, and every part of it
+// is the thing read at its position (nested descriptors: the result of the nested read, in order).
 //@ func (f *framer) readTypeInfo
 //@   props C04 C05
+//@   count_calls readShort readString readTypeInfo
 //@   modifies f.buf
 //@   may_soft_panic
 //@   alloc_bound len(f.buf)
+//@   ensures[C04] !soft_panic() && be16(old(f.buf), 0) != 0 ==> typeis(result, TupleTypeInfo) == (be16(old(f.buf), 0) == 0x31) && typeis(result, UDTTypeInfo) == (be16(old(f.buf), 0) == 0x30) && typeis(result, CollectionType) == (be16(old(f.buf), 0) == 0x20 || be16(old(f.buf), 0) == 0x21 || be16(old(f.buf), 0) == 0x22)
+//@   ensures[C04] !soft_panic() && be16(old(f.buf), 0) != 0 && be16(old(f.buf), 0) != 0x31 && be16(old(f.buf), 0) != 0x30 && be16(old(f.buf), 0) != 0x20 && be16(old(f.buf), 0) != 0x21 && be16(old(f.buf), 0) != 0x22 ==> typeis(result, NativeType) && unbox(result, NativeType).typ == Type(be16(old(f.buf), 0)) && unbox(result, NativeType).proto == f.proto && len(f.buf) == old(len(f.buf)) - 2
+//@   at_return[C04] typeis(result0, TupleTypeInfo) ==> unbox(result0, TupleTypeInfo).NativeType.typ == 0x31 && unbox(result0, TupleTypeInfo).NativeType.proto == f.proto && len(unbox(result0, TupleTypeInfo).Elems) == int(readShort_ret0)
+//@   at_return[C04] typeis(result0, TupleTypeInfo) && be16(old(f.buf), 0) == 0x31 ==> len(unbox(result0, TupleTypeInfo).Elems) == int(be16(old(f.buf), 2))
+//@   at_return[C04] typeis(result0, UDTTypeInfo) ==> unbox(result0, UDTTypeInfo).NativeType.typ == 0x30 && len(unbox(result0, UDTTypeInfo).Elements) == int(readShort_ret0)
+//@   at_return[C04] typeis(result0, UDTTypeInfo) && be16(old(f.buf), 0) == 0x30 ==> same(unbox(result0, UDTTypeInfo).KeySpace, string(old(f.buf[4:4+int(be16(f.buf, 2))])))
+//@   at_return[C04] typeis(result0, CollectionType) ==> unbox(result0, CollectionType).Elem == readTypeInfo_ret0 && unbox(result0, CollectionType).NativeType.proto == f.proto && (unbox(result0, CollectionType).NativeType.typ == 0x20 || unbox(result0, CollectionType).NativeType.typ == 0x21 || unbox(result0, CollectionType).NativeType.typ == 0x22)
+//@   at_return[C04] typeis(result0, CollectionType) && be16(old(f.buf), 0) != 0 ==> unbox(result0, CollectionType).NativeType.typ == Type(be16(old(f.buf), 0)) && readTypeInfo_calls >= ite(be16(old(f.buf), 0) == 0x21, 2, 1)
+// a map's key is the first nested descriptor, its value the second
+//@   before[C04] readTypeInfo: in_loop == -1 ==> (readTypeInfo_calls >= 2 ==> simple.typ == 0x21 && collection.Key == readTypeInfo_ret0)
+// tuple element i / UDT field i: the i-th nested descriptor; a field's name is the string read just before its type
+//@   loop 0: step tuple.Elems[prev(i)] == readTypeInfo_ret0
+//@   before[C04] readTypeInfo: in_loop == 1 ==> udt.Elements[i].Name == readString_ret0
+//@   loop 1: step udt.Elements[prev(i)].Type == readTypeInfo_ret0
 //@   ensures !soft_panic() ==> len(f.buf) <= old(len(f.buf)) - 2 && base(f.buf) == old(base(f.buf))
 //@   loop 0: invariant 0 <= i && i <= int(n) && len(tuple.Elems) == int(n) && len(f.buf) <= old(len(f.buf)) - 2 && base(f.buf) == old(base(f.buf))
 //@   loop 1: invariant 0 <= i && i <= int(n) && len(udt.Elements) == int(n) && len(f.buf) <= old(len(f.buf)) - 2 && base(f.buf) == old(base(f.buf))
 
+// <col_spec>: without a global table spec [string] keyspace, [string] table; then [string] name, <option> type.
+// A tuple column is as wide as it has elements (Scan hands each element its own destination).
 //@ func (f *framer) readCol
 //@   props C04 C05
+//@   count_calls readString readTypeInfo
 //@   requires col != nil && meta != nil
 //@   modifies f.buf, *col, meta.actualColCount
 //@   may_soft_panic
+//@   before[C04] readTypeInfo: readTypeInfo_calls == 1 && readString_calls == ite(globalSpec, 1, 3)
+//@   at_return[C04] readTypeInfo_calls >= 1 && col.TypeInfo == readTypeInfo_ret0 && col.Name == readString_ret0
+//@   at_return[C04] globalSpec ==> col.Keyspace == keyspace && col.Table == table
+//@   at_return[C04] !globalSpec ==> col.Keyspace == nth(readString, 1) && col.Table == nth(readString, 2) && col.Name == nth(readString, 3)
+//@   at_return[C04] typeis(col.TypeInfo, TupleTypeInfo) ==> meta.actualColCount == old(meta.actualColCount) + len(unbox(col.TypeInfo, TupleTypeInfo).Elems) - 1
+//@   at_return[C04] !typeis(col.TypeInfo, TupleTypeInfo) ==> meta.actualColCount == old(meta.actualColCount)
 //@   ensures !soft_panic() ==> len(f.buf) <= old(len(f.buf)) - 4 && base(f.buf) == old(base(f.buf))
 
 // bind metadata: one column specification per bind marker (tuple markers are not flattened, a
 // response without specifications is rejected) - executeQuery/executeBatch index columns by value position
+// Prepared <metadata>: [int] flags, [int] columns_count, v4+: [int] pk_count and pk_count [short] indexes, then
+// as the rows metadata.
 //@ func (f *framer) parsePreparedMetadata
 //@   props C04 C05 C14
+//@   count_calls readInt readShort readBytes readString readCol
 //@   may_soft_panic
 //@   alloc_bound len(f.buf)
+//@   ensures[C04] !soft_panic() ==> result.resultMetadata.flags == int(int32(be32(old(f.buf), 0))) && result.resultMetadata.colCount == int(int32(be32(old(f.buf), 4))) && result.resultMetadata.colCount >= 0
+//@   ensures[C04] !soft_panic() && f.proto >= 4 ==> len(result.pkeyColumns) == int(int32(be32(old(f.buf), 8))) && forall(k, 0 <= k && k < len(result.pkeyColumns), result.pkeyColumns[k] == int(be16(old(f.buf), 12 + 2*k)))
+//@   ensures[C04] !soft_panic() && f.proto < 4 ==> len(result.pkeyColumns) == 0
+//@   ensures[C04] !soft_panic() && result.resultMetadata.flags&0x04 != 0 ==> len(result.resultMetadata.columns) == 0 && result.resultMetadata.colCount == 0
+//@   ensures[C04] !soft_panic() && result.resultMetadata.flags&0x04 == 0 ==> len(result.resultMetadata.columns) == result.resultMetadata.colCount
+//@   before[C04] readCol: meta.resultMetadata.flags&0x04 == 0 && arg3 == (meta.resultMetadata.flags&0x01 != 0) && (arg3 ==> readString_calls >= 2 && arg4 == meta.keyspace && arg5 == meta.table && meta.keyspace == nth(readString, 1) && meta.table == nth(readString, 2))
+//@   at_return[C04] meta.resultMetadata.flags&0x04 == 0 ==> readCol_calls == meta.resultMetadata.colCount
 //@   ensures !soft_panic() ==> result.actualColCount == len(result.columns) && result.actualColCount >= 0
 //@   loop 0: invariant 0 <= i && len(pkeys) == pkeyCount
+//@   loop 0: invariant meta.resultMetadata.flags == int(int32(be32(old(f.buf), 0))) && meta.resultMetadata.colCount == int(int32(be32(old(f.buf), 4))) && meta.resultMetadata.colCount >= 0 && f.proto >= 4 && pkeyCount == int(int32(be32(old(f.buf), 8)))
+//@   loop 0: invariant i <= pkeyCount && pkeyCount <= (old(len(f.buf)) - 12) / 2 && f.buf == old(f.buf)[12+2*i:] && forall(k, 0 <= k && k < i, pkeys[k] == int(be16(old(f.buf), 12 + 2*k)))
+//@   loop 1: invariant readCol_calls == i && meta.resultMetadata.flags == int(int32(be32(old(f.buf), 0))) && meta.resultMetadata.colCount == int(int32(be32(old(f.buf), 4))) && meta.resultMetadata.colCount >= 0 && meta.resultMetadata.flags&0x04 == 0
+//@   loop 1: invariant (f.proto >= 4 ==> len(meta.pkeyColumns) == int(int32(be32(old(f.buf), 8))) && forall(k, 0 <= k && k < len(meta.pkeyColumns), meta.pkeyColumns[k] == int(be16(old(f.buf), 12 + 2*k)))) && (f.proto < 4 ==> len(meta.pkeyColumns) == 0)
+//@   loop 1: invariant globalSpec == (meta.resultMetadata.flags&0x01 != 0) && (globalSpec ==> readString_calls >= 2 && meta.keyspace == nth(readString, 1) && meta.table == nth(readString, 2))
+//@   loop 2: invariant readCol_calls == i && meta.resultMetadata.flags == int(int32(be32(old(f.buf), 0))) && meta.resultMetadata.colCount == int(int32(be32(old(f.buf), 4))) && meta.resultMetadata.colCount >= 0 && meta.resultMetadata.flags&0x04 == 0
+//@   loop 2: invariant (f.proto >= 4 ==> len(meta.pkeyColumns) == int(int32(be32(old(f.buf), 8))) && forall(k, 0 <= k && k < len(meta.pkeyColumns), meta.pkeyColumns[k] == int(be16(old(f.buf), 12 + 2*k)))) && (f.proto < 4 ==> len(meta.pkeyColumns) == 0)
+//@   loop 2: invariant globalSpec == (meta.resultMetadata.flags&0x01 != 0) && (globalSpec ==> readString_calls >= 2 && meta.keyspace == nth(readString, 1) && meta.table == nth(readString, 2))
 //@   loop 1: invariant 0 <= i && i <= meta.colCount && len(cols) == meta.colCount && meta.colCount < 1000 && meta.colCount >= 0
 //@   loop 2: invariant 0 <= i && i <= meta.colCount && len(cols) == i && meta.colCount >= 1000
 
+// Rows <metadata>: [int] flags, [int] columns_count, [bytes] paging_state if flag 0x02, nothing more if flag
+// 0x04 (no metadata), else the global <keyspace><table> if flag 0x01 and columns_count <col_spec>.
 //@ func (f *framer) parseResultMetadata
 //@   props C04 C05
+//@   count_calls readInt readBytes readString readCol
 //@   may_soft_panic
 //@   alloc_bound len(f.buf)
+//@   ensures[C04] !soft_panic() ==> result.flags == int(int32(be32(old(f.buf), 0))) && result.colCount == int(int32(be32(old(f.buf), 4))) && result.colCount >= 0
+// the paging state is a copy of the [bytes] after the two counters, present exactly with the has-more-pages flag
+//@   ensures[C04] !soft_panic() && result.flags&0x02 == 0 ==> len(result.pagingState) == 0
+//@   ensures[C04] !soft_panic() && result.flags&0x02 != 0 && int(int32(be32(old(f.buf), 8))) >= 0 ==> len(result.pagingState) == int(int32(be32(old(f.buf), 8))) && forall(k, 0 <= k && k < len(result.pagingState), result.pagingState[k] == old(f.buf[12+k]))
+//@   ensures[C04] !soft_panic() && result.flags&0x04 != 0 ==> len(result.columns) == 0 && result.actualColCount == result.colCount && len(f.buf) == old(len(f.buf)) - 8 - ite(result.flags&0x02 != 0, 4 + max(int(int32(be32(old(f.buf), 8))), 0), 0)
+//@   ensures[C04] !soft_panic() && result.flags&0x04 == 0 ==> len(result.columns) == result.colCount
+//@   before[C04] readBytes: readInt_calls == 2 && readBytes_calls == 1 && meta.flags&0x02 != 0 && readString_calls == 0 && readCol_calls == 0
+//@   before[C04] readString: meta.flags&0x01 != 0 && meta.flags&0x04 == 0 && readCol_calls == 0 && readString_calls <= 2
+//@   before[C04] readCol: meta.flags&0x04 == 0 && arg3 == (meta.flags&0x01 != 0) && (arg3 ==> readString_calls >= 2 && arg4 == keyspace && arg5 == table && keyspace == nth(readString, 1) && table == nth(readString, 2))
+//@   at_return[C04] meta.flags&0x04 != 0 ==> readCol_calls == 0 && readString_calls == 0
+//@   at_return[C04] meta.flags&0x04 == 0 ==> readCol_calls == meta.colCount
+//@   loop 0: invariant readCol_calls == i && i <= meta.colCount && readInt_calls == 2 && meta.flags&0x04 == 0
+//@   loop 0: invariant meta.flags == int(int32(be32(old(f.buf), 0))) && meta.colCount == int(int32(be32(old(f.buf), 4))) && meta.colCount >= 0
+//@   loop 0: invariant (meta.flags&0x02 == 0 ==> len(meta.pagingState) == 0) && (meta.flags&0x02 != 0 && int(int32(be32(old(f.buf), 8))) >= 0 ==> len(meta.pagingState) == int(int32(be32(old(f.buf), 8))) && forall(k, 0 <= k && k < len(meta.pagingState), meta.pagingState[k] == old(f.buf[12+k])))
+//@   loop 0: invariant globalSpec == (meta.flags&0x01 != 0) && (globalSpec ==> readString_calls >= 2 && keyspace == nth(readString, 1) && table == nth(readString, 2))
+//@   loop 1: invariant readCol_calls == i && i <= meta.colCount && len(cols) == i && readInt_calls == 2 && meta.flags&0x04 == 0
+//@   loop 1: invariant meta.flags == int(int32(be32(old(f.buf), 0))) && meta.colCount == int(int32(be32(old(f.buf), 4))) && meta.colCount >= 0
+//@   loop 1: invariant (meta.flags&0x02 == 0 ==> len(meta.pagingState) == 0) && (meta.flags&0x02 != 0 && int(int32(be32(old(f.buf), 8))) >= 0 ==> len(meta.pagingState) == int(int32(be32(old(f.buf), 8))) && forall(k, 0 <= k && k < len(meta.pagingState), meta.pagingState[k] == old(f.buf[12+k])))
+//@   loop 1: invariant globalSpec == (meta.flags&0x01 != 0) && (globalSpec ==> readString_calls >= 2 && keyspace == nth(readString, 1) && table == nth(readString, 2))
 //@   loop 0: invariant 0 <= i && len(cols) == meta.colCount && meta.colCount < 1000
 //@   loop 1: invariant 0 <= i
 
@@ -644,8 +713,8 @@ package gocql
 //@   ensures !soft_panic() ==> typeis(result, *resultRowsFrame) && unbox(result, *resultRowsFrame) != nil
 // ROWS: <metadata>, [int] rows_count, then the rows (read cell by cell by the iterator)
 //@   count_calls parseResultMetadata readInt
-//@   before[C04] readInt: parseResultMetadata_calls == 1 && readInt_calls == 1
-//@   at_return[C04] parseResultMetadata_calls == 1 && readInt_calls == 1 && unbox(result0, *resultRowsFrame).numRows == readInt_ret0 && readInt_ret0 >= 0
+//@   before[C04] readInt: parseResultMetadata_calls == 1
+//@   at_return[C04] parseResultMetadata_calls == 1 && readInt_calls >= 1 && unbox(result0, *resultRowsFrame).numRows == readInt_ret0 && readInt_ret0 >= 0
 //@   at_return[C04] unbox(result0, *resultRowsFrame).meta.flags == parseResultMetadata_ret0.flags && unbox(result0, *resultRowsFrame).meta.colCount == parseResultMetadata_ret0.colCount && unbox(result0, *resultRowsFrame).meta.actualColCount == parseResultMetadata_ret0.actualColCount && same(unbox(result0, *resultRowsFrame).meta.columns, parseResultMetadata_ret0.columns) && same(unbox(result0, *resultRowsFrame).meta.pagingState, parseResultMetadata_ret0.pagingState)
 
 //@ func (f *framer) parseResultSetKeyspace
@@ -819,7 +888,27 @@ package gocql
 // run-time panics would be re-panicked (so none may be reachable below it).
 //@ func (f *framer) parseFrame
 //@   props C04 C05
+//@   count_calls readTrace readStringList readBytesMap parseErrorFrame parseReadyFrame parseResultFrame parseSupportedFrame parseAuthenticateFrame parseAuthChallengeFrame parseAuthSuccessFrame parseEventFrame
 //@   requires f.header != nil
+// C04: the body starts with the parts the header flags announce, in this order - tracing id (0x02), warnings
+// (0x08), custom payload (0x04) - and continues with the message of the opcode (spec section 2.4):
+// ERROR 0x00, READY 0x02, AUTHENTICATE 0x03, SUPPORTED 0x06, RESULT 0x08, EVENT 0x0C, AUTH_CHALLENGE 0x0E, AUTH_SUCCESS 0x10
+//@   before[C04] readTrace: f.header.flags&0x02 != 0 && readTrace_calls == 1 && readStringList_calls == 0 && readBytesMap_calls == 0
+//@   before[C04] readStringList: f.header.flags&0x08 != 0 && readStringList_calls == 1 && readTrace_calls == ite(f.header.flags&0x02 != 0, 1, 0) && readBytesMap_calls == 0
+//@   before[C04] readBytesMap: f.header.flags&0x04 != 0 && readBytesMap_calls == 1 && readTrace_calls == ite(f.header.flags&0x02 != 0, 1, 0) && readStringList_calls == ite(f.header.flags&0x08 != 0, 1, 0)
+//@   before[C04] parseErrorFrame: f.header.op == 0x00 && readTrace_calls == ite(f.header.flags&0x02 != 0, 1, 0) && readStringList_calls == ite(f.header.flags&0x08 != 0, 1, 0) && readBytesMap_calls == ite(f.header.flags&0x04 != 0, 1, 0)
+//@   before[C04] parseReadyFrame: f.header.op == 0x02
+//@   before[C04] parseAuthenticateFrame: f.header.op == 0x03 && readTrace_calls == ite(f.header.flags&0x02 != 0, 1, 0) && readStringList_calls == ite(f.header.flags&0x08 != 0, 1, 0) && readBytesMap_calls == ite(f.header.flags&0x04 != 0, 1, 0)
+//@   before[C04] parseSupportedFrame: f.header.op == 0x06 && readTrace_calls == ite(f.header.flags&0x02 != 0, 1, 0) && readStringList_calls == ite(f.header.flags&0x08 != 0, 1, 0) && readBytesMap_calls == ite(f.header.flags&0x04 != 0, 1, 0)
+//@   before[C04] parseResultFrame: f.header.op == 0x08 && readTrace_calls == ite(f.header.flags&0x02 != 0, 1, 0) && readStringList_calls == ite(f.header.flags&0x08 != 0, 1, 0) && readBytesMap_calls == ite(f.header.flags&0x04 != 0, 1, 0)
+//@   before[C04] parseEventFrame: f.header.op == 0x0c && readTrace_calls == ite(f.header.flags&0x02 != 0, 1, 0) && readStringList_calls == ite(f.header.flags&0x08 != 0, 1, 0) && readBytesMap_calls == ite(f.header.flags&0x04 != 0, 1, 0)
+//@   before[C04] parseAuthChallengeFrame: f.header.op == 0x0e && readTrace_calls == ite(f.header.flags&0x02 != 0, 1, 0) && readStringList_calls == ite(f.header.flags&0x08 != 0, 1, 0) && readBytesMap_calls == ite(f.header.flags&0x04 != 0, 1, 0)
+//@   before[C04] parseAuthSuccessFrame: f.header.op == 0x10 && readTrace_calls == ite(f.header.flags&0x02 != 0, 1, 0) && readStringList_calls == ite(f.header.flags&0x08 != 0, 1, 0) && readBytesMap_calls == ite(f.header.flags&0x04 != 0, 1, 0)
+// a frame that is not a response, or whose opcode is none of these, is refused
+//@   ensures[C04] old(f.header.version)&0x80 == 0 ==> err != nil
+//@   ensures[C04] err == nil ==> old(f.header.op) == 0x00 || old(f.header.op) == 0x02 || old(f.header.op) == 0x03 || old(f.header.op) == 0x06 || old(f.header.op) == 0x08 || old(f.header.op) == 0x0c || old(f.header.op) == 0x0e || old(f.header.op) == 0x10
+//@   ensures[C04] err == nil && old(f.header.flags)&0x08 != 0 ==> readStringList_calls >= 1 && same(f.header.warnings, readStringList_ret0)
+//@   ensures[C04] err == nil && old(f.header.flags)&0x04 != 0 ==> readBytesMap_calls >= 1 && f.customPayload == readBytesMap_ret0
 // the kind of frame returned follows the opcode (CQL spec §2.4), and pointer frames are never nil pointers
 //@   ensures err == nil ==> frame != nil
 //@   ensures nonnilptr(frame)
@@ -1114,7 +1203,9 @@ package gocql
 //@   ensures[C15] old(is.iter.err) == nil && old(is.iter.pos >= is.iter.numRows) && old(is.iter.next) == nil ==> !result && nextIter_fetch_calls == 0 && readColumn_calls == 0
 //@   ensures[C15] result && old(is.iter.pos < is.iter.numRows) ==> is.iter == old(is.iter) && is.iter.pos == old(is.iter.pos) + 1 && nextIter_fetch_calls == 0
 //@   assume is.iter.pos < is.iter.numRows ==> is.iter.framer != nil
-//@   loop 0: invariant 0 <= i
+// a row: as many cells as the scanner has columns, cell i into slot i
+//@   loop 0: invariant 0 <= i && readColumn_calls == i
+//@   loop 0: step same(is.cols[prev(i)], readColumn_ret0) && readColumn_ret1 == nil && readColumn_calls == prev(readColumn_calls) + 1
 
 // Scan of a scanner: the cells Next read, one per column in column order (the scanner holds as many
 // cells as the page has columns - Scanner() and Next() keep it so)
